@@ -117,6 +117,40 @@ theorem numa_plans_local_zero_mem (info : NodeInfo) (origin : CpuMap) (B maxShar
     have := hloc p hp he kv.1 (List.mem_map_of_mem hkv)
     simp [this]
 
+/-- **realloc_numa_memory** (re-allocation counterpart of `numa_plans_memory`): a bound `CalculateRealloc`
+    that places the workload on NUMA node `n` with a positive memory request needs at most the free NUMA
+    memory of `n` on the node with the old allocation given back — so a memory increase that only fits the
+    node as a whole cannot leave the workload on its NUMA node (oracle clause `C04:numa:realloc`). -/
+theorem realloc_numa_memory (info : NodeInfo) (B maxShare : Int) (origin w' : Workload) (raw : RawReq) (order : List String)
+    (hord : order.Nodup) (hn : w'.numa ≠ "") (hm : 0 < w'.memReq)
+    (h : calculateRealloc info B maxShare origin raw order = .ok w') :
+    w'.memReq ≤ (givenBack info origin).available.numaMem.get w'.numa := by
+  unfold calculateRealloc at h
+  split at h
+  · cases h
+  · unfold reallocCore at h
+    split at h
+    · rename_i w hv
+      split at h
+      · split at h
+        · cases h
+        · rename_i p rest hg
+          cases h
+          simp only [] at hn hm ⊢
+          have hb := getCPUPlans_numa_memory (givenBack info origin) origin.cpuMap B maxShare w.toReq order hord hm _ hg p.numa hn
+          have hc : 1 ≤ cnt (p :: rest) p.numa := by
+            unfold cnt; exact List.length_pos_of_mem (List.mem_filter.mpr ⟨List.mem_cons_self .., by simp⟩)
+          have e : w.toReq.mem = w.memReq := rfl
+          rw [e] at hb
+          have h1 : (1 : Int) * w.memReq ≤ (cnt (p :: rest) p.numa : Int) * w.memReq :=
+            Int.mul_le_mul_of_nonneg_right (by omega) (by omega)
+          omega
+        all_goals cases h
+      · split at h
+        · cases h; simp at hn
+        all_goals cases h
+    all_goals cases h
+
 /-- common part of the two commit theorems for bound deployments -/
 theorem commit_bound (info : NodeInfo) (B maxShare count : Int) (raw w : RawReq) (order : List String) (ws : List Workload)
     (hB : 1 ≤ B) (hwf : WF info) (huk : info.use.cpuMap.keys.Nodup)
